@@ -50,6 +50,7 @@ pub fn run(id: &str, tier: &str, seed: u64) -> i32 {
         "C12" => sanit::attach(&mut r, "failing", n),
         "C14" => sanit::attach(&mut r, "abandon", n),
         "C16" => sanit::attach(&mut r, "codec", n),
+        "C17" | "C18" => sanit::attach(&mut r, "async", n),
         _ => {}
     }
     if !r.quick() {
@@ -58,6 +59,7 @@ pub fn run(id: &str, tier: &str, seed: u64) -> i32 {
             "C12" => sanit::attach_asan(&mut r, "vcore", "verif", "failing", 2000),
             "C14" => sanit::attach_asan(&mut r, "vcore", "verif", "abandon", 4000),
             "C16" => sanit::attach_asan(&mut r, "vcore", "verif", "codec", 4000),
+            "C17" | "C18" => sanit::attach_asan(&mut r, "vcore", "verif", "async", 2000),
             _ => {}
         }
     }
